@@ -87,9 +87,11 @@ def run(ctx):
     n_rustc = 0
     sample = [(t, d) for t, d, k, _ in defs if k == "well-formed" and t in by_tag][: (6 if quick else 40)]
     for feats, be in ((["std"], "f64"), (["std", "fpdec"], "dec")):
-        res = compile_and_dump(ctx, sample, feats, be)
-        n_rustc += len(sample)
-        for (tag, d), out in zip(sample, res):
+        # a scale with more than 18 fractional digits has no value in the decimal amount type (Dec! rejects the literal)
+        sample_be = [(t, d) for t, d in sample if be == "f64" or d.fits_decimal()]
+        res = compile_and_dump(ctx, sample_be, feats, be)
+        n_rustc += len(sample_be)
+        for (tag, d), out in zip(sample_be, res):
             if out is None:
                 violations.append({"what": f"a well-formed definition does not compile ({be})", "input": d.source(), "observed": "rustc error"})
                 continue
